@@ -16,8 +16,8 @@ func init() {
 	sim.Register(&sim.Check{
 		ID: "C46", Title: "The ordered block buffer yields blocks lowest round first", World: "threads",
 		Gen: genC46, Exec: execC46, Prepare: prepareFn(false),
-		Quick:    sim.Budget{Runs: 3000, WallS: 40},
-		Thorough: sim.Budget{Runs: 1500000, WallS: 780},
+		Quick:       sim.Budget{Runs: 3000, WallS: 40},
+		Thorough:    sim.Budget{Runs: 1500000, WallS: 780},
 		RunsPerProc: 200,
 		LevelText: "seeded search over concurrent histories (<= 4 clients, <= 40 operations) and interleavings of the real OrderBuffer; every history is checked for " +
 			"linearizability against the sorted-multiset model of DESIGN A.8 with porcupine; a clean batch is evidence, not proof",
